@@ -423,7 +423,10 @@ impl Message<Msg> for S {
             self.jl.push("h".into());
             Val(v)
         } else {
-            hexit(&self.sh.name, "handler", msg.m, "panic", 0);
+            if out == "slowpanic" {
+                std::thread::sleep(Duration::from_millis(3));
+            }
+            hexit(&self.sh.name, "handler", msg.m, if out == "slowpanic" { "slowpanic" } else { "panic" }, 0);
             panic!("scripted")
         }
     }
